@@ -66,6 +66,12 @@ class Creators:
       key = gfa_line.name
       if gfapy.is_placeholder(key):
         key = id(gfa_line)
+      elif isinstance(key, (list, dict)):
+        # (at validation level 0 the datatype of the tag which names a GFA1
+        # edge has not been checked)
+        raise gfapy.TypeError(
+          "Line: {}\n".format(gfa_line)+
+          "The identifier is not a string: {}".format(repr(key)))
       elif isinstance(key, str) and key.isascii() and key.isdigit():
         try:
           keynum = int(key)
